@@ -491,6 +491,30 @@ var blockingExternals = map[string]string{
 	"(*golang.org/x/sync/errgroup.Group).Wait": "errgroup.Wait",
 }
 
+// syncHigherOrder: external functions known to call their function
+// arguments synchronously, on the calling goroutine, before returning.
+func syncHigherOrder(f *ssa.Function) bool {
+	switch FuncPkgPath(f) {
+	case "github.com/cenkalti/backoff/v4":
+		return strings.HasPrefix(f.Name(), "Retry")
+	case "sort":
+		return f.Name() == "Slice" || f.Name() == "SliceStable" || f.Name() == "Search"
+	case "sync":
+		return f.Name() == "Do"
+	case "strings", "bytes":
+		return strings.HasSuffix(f.Name(), "Func") || f.Name() == "Map"
+	}
+	return false
+}
+
+// retryExternal: library retry loops (sleep between attempts).
+func retryExternal(f *ssa.Function) string {
+	if FuncPkgPath(f) == "github.com/cenkalti/backoff/v4" && strings.HasPrefix(f.Name(), "Retry") {
+		return "retry loop " + f.Name() + " (sleeps between attempts)"
+	}
+	return ""
+}
+
 func (w *LockWalker) call(fn *ssa.Function, r *Resolver, ins ssa.Instruction, cc *ssa.CallCommon, st LState, rec bool, stack []string) LState {
 	pos := w.P.InstrPos(ins)
 	fname := funcDisplayName(fn)
@@ -580,6 +604,42 @@ func (w *LockWalker) call(fn *ssa.Function, r *Resolver, ins ssa.Instruction, cc
 			}
 			w.ev(rec, LEvent{Kind: "call-ext", What: cal.String(), Pos: pos, Fn: fname, Held: st.heldList(), Stack: stack})
 			res = st
+			if what := retryExternal(cal); what != "" {
+				w.ev(rec, LEvent{Kind: "block", What: what, Pos: pos, Fn: fname, Held: st.heldList(), Stack: stack})
+			}
+			if syncHigherOrder(cal) {
+				// the library calls the function arguments synchronously on
+				// the caller's goroutine: they run under the caller's locks
+				for _, a := range cc.Args {
+					if _, isSig := a.Type().Underlying().(*types.Signature); !isSig {
+						continue
+					}
+					for _, alt := range r.Of(a).Alts() {
+						var f *ssa.Function
+						src := r
+						switch alt.K {
+						case "closure":
+							mc := alt.V.(*ssa.MakeClosure)
+							f = mc.Fn.(*ssa.Function)
+							if e := w.closures[mc]; e != nil {
+								src = e
+							}
+						case "func":
+							f, _ = alt.V.(*ssa.Function)
+						}
+						if f == nil || !InRepo(f) || f.Blocks == nil {
+							continue
+						}
+						nr := NewResolver(w.P)
+						for k, v := range src.Env {
+							nr.Env[k] = v
+						}
+						w.gstack = append(w.gstack, guardAtoms(r, ins))
+						w.analyze(f, nr, st, rec, append(append([]string{}, stack...), funcDisplayName(f)))
+						w.gstack = w.gstack[:len(w.gstack)-1]
+					}
+				}
+			}
 		} else {
 			// build callee resolver
 			nr := NewResolver(w.P)
